@@ -132,13 +132,50 @@ func init() {
 		Scopes: func(tier string) []*drv.Scope {
 			var out []*drv.Scope
 			for _, sp := range boolSpaces(tier) {
-				out = append(out, c01Scope(sp, false))
+				// quick: pitch 1 (every feature of the stride-10 embeddings is wider), thorough: pitch 1/2
+				out = append(out, c01Scope(sp, tier == "quick"))
 			}
 			if tier == "quick" {
+				out = append(out, c01Scope(spRects(enum.Eax, 4, 5), true))
 				// the smallest scope in which a quad interacts with a triangle
 				out = append(out, c01Scope(spPair("B3", enum.Eax, 3, 4, 3, 5), true))
+				out = append(out, c01LargeScope(c19Ns[:2]))
+			} else {
+				out = append(out, c01LargeScope(c19Ns))
 			}
 			return out
 		},
 	})
+}
+
+// c01LargeScope checks the region oracle on the parametric large family of
+// C19 (64..2048 vertices, radius 1e5) with a coarse witness lattice (pitch
+// 401/4... units): the small-scope spaces cannot contain a defect that needs a
+// feature thousands of units long and less than a unit wide.
+func c01LargeScope(ns []int) *drv.Scope {
+	big := c19BigScope(ns)
+	var reg oracle.Region
+	return &drv.Scope{Name: "large-family/region", Level: 7, Size: big.Size, Chunk: 1, Show: big.Show,
+		Run: func(c *drv.Ctx, idx uint64) {
+			S, C := c19BigGen(ns, idx)
+			reg.SetInput(S, C, 4, 4*402, 3)
+			nt := false
+			for _, fr := range allFillRules {
+				for _, ct := range allClipTypes {
+					sol := clipper.BooleanOpPaths64(ct, S, C, fr)
+					c.Exec(1)
+					c.Output(enum.HashPaths(sol))
+					reg.LoadSolution(sol)
+					m, n := reg.CheckBoolean(ct, fr, 2)
+					nt = nt || n
+					if m != nil {
+						c.Fail("region", cfgName(ct, fr), "%s %s: %s (solution has %d paths)", ctNames[ct], frNames[fr], m.String(), len(sol))
+					}
+				}
+			}
+			if nt {
+				c.Nontriv()
+				c.Count("large_inputs_with_nonempty_expected_and_solution", 1)
+			}
+		}}
 }
